@@ -352,4 +352,24 @@ theorem reach_inv {E : Engine} (hE : EngineOK E) {cfg : Cfg} {inp : Input} {ds0 
   | init h => exact (initState_inv hE h).1
   | step _ h ih => exact step_inv hE ih h
 
+
+/-- every state listed by the count-by-count trace (what the driver prints for `stv_trace`) is reached -/
+theorem traceGo_reach {E : Engine} {cfg : Cfg} {inp : Input} {ds0 : List Draw} (k : Nat) (st : St) (acc : List St)
+    (hr : Reach E cfg inp ds0 st) (hacc : ∀ s ∈ acc, Reach E cfg inp ds0 s) :
+    ∀ s ∈ (traceGo E cfg inp k st acc).1, Reach E cfg inp ds0 s := by
+  induction k generalizing st acc with
+  | zero => intro s hs; simp only [traceGo, List.mem_reverse] at hs; exact hacc s hs
+  | succ k ih =>
+    intro s hs
+    simp only [traceGo] at hs
+    split at hs
+    · simp only [List.mem_reverse] at hs; exact hacc s hs
+    · simp only [List.mem_reverse] at hs; exact hacc s hs
+    · rename_i st' hstep
+      have hr' : Reach E cfg inp ds0 st' := .step hr hstep
+      exact ih st' (st' :: acc) hr' (fun x hx => by
+        rcases List.mem_cons.mp hx with h | h
+        · rw [h]; exact hr'
+        · exact hacc x h) s hs
+
 end VL.STV
